@@ -167,6 +167,14 @@ class MultipartDecoder:
                 self._search_position = max(
                     0, len(self.buffer) - len(self.boundary) - SEARCH_EXTRA_LENGTH
                 )
+                # A delimiter whose transport padding or line break has
+                # not arrived yet has to stay inside the search window.
+                delimiter = self.buffer.rfind(b"--" + self.boundary)
+
+                if delimiter != -1:
+                    self._search_position = min(
+                        self._search_position, max(0, delimiter - 2)
+                    )
 
         elif self.state == State.PART:
             match = BLANK_LINE_RE.search(self.buffer, self._search_position)
